@@ -5,6 +5,7 @@ import (
 	"encoding/json"
 	"fmt"
 	"os"
+	"path/filepath"
 	"runtime"
 	"sort"
 	"strconv"
@@ -387,6 +388,9 @@ func runC11(c *hx.Ctx) error {
 
 func replayC11(c *hx.Ctx) error {
 	data, err := os.ReadFile(c.Replay)
+	if err != nil && !filepath.IsAbs(c.Replay) { // the check runs the harness in go/, the path is relative to its parent
+		data, err = os.ReadFile(filepath.Join("..", c.Replay))
+	}
 	if err != nil {
 		return err
 	}
